@@ -1511,6 +1511,10 @@ where
                 );
 
                 while let Some(chosen) = self.choice_buf.pop() {
+                    // The tally is a u16
+                    if num_items == u16::MAX {
+                        break;
+                    }
                     let pos = buf.get_ref().len();
                     if let Err(_ignored) = self.codec.encode_member(&chosen, &mut buf) {
                         // encoding the member might have advanced the cursor
